@@ -51,6 +51,7 @@ def plan(tier):
     W = worlds.curated()
     q = tier == "quick"
     return [(W["ifcreate"], alphabet_ifc, 4 if q else 6), (W["ifcreate-raw"], alphabet_ifc, 4 if q else 6),
+            (W["ifcreate-link"], alphabet_ifc, 4 if q else 6),
             (W["always"], alphabet_alw, 3 if q else 5), (W["always3"], alphabet_alw, 3 if q else 5)]
 
 
